@@ -32,6 +32,7 @@ This file connects the two.
 -/
 import ZygoVerif.Props.C02
 import ZygoVerif.Props.C03
+import ZygoVerif.Proofs.ScopeSimF
 namespace ZygoVerif.C03
 open ZygoVerif.Core ZygoVerif.VM ZygoVerif.Scope ZygoVerif.Sim ZygoVerif.C02
 
@@ -230,5 +231,113 @@ theorem tail_call_gets_fresh_scope (a : Int) :
 example : obsOfRef (Ref.runProgram 40 (progTail 7) Ref.initSt).1 = some (.ok "7" ["8"])
     ∧ ∃ fuel, obsOfVM (VM.runText fuel (progTail 7) VM.initSt).1 = some (.ok "7" ["8"]) :=
   ⟨progTail_ref 7, tail_call_gets_fresh_scope 7⟩
+
+/-! ## 2. `RelF` and C03's `Sim`
+
+`Sim ρ φ s rs env` (Props/C03 §6) asks, along the VM's search list `lexCore s`: (chain) its image
+under `ρ`, repetitions removed, is the reference static chain of `env`; (vars) the variables of scope
+`id` are those of frame `ρ id`, translated by `φ`, AS LISTS; (template) stage 3 adds no scope.
+`Sim.RelF m s rs env` (the relation the C02 simulation proofs maintain) gives all of it with `ρ = id`
+(scope ids are frame ids) and `φ = Sim.trf m` (values modulo the numbering of closures) — except
+the order of the bindings inside one frame, which the two evaluators do not share (the machine binds
+parameters and the names of a parallel `let` last-first, the reference first-first; `RelF.vars` is
+extensional). `SimX` is `Sim` with (vars) by lookup; it is what `lookup_sound` uses. -/
+
+/-- `Sim` is `SimX` plus the order of bindings. -/
+theorem sim_implies_simX {ρ : Nat → Nat} {φ : Val → Val} {s : St} {rs : Ref.St} {env : Nat} (h : Sim ρ φ s rs env) :
+    SimX ρ φ s rs env := h.toX
+
+/-- `lookup_sound` from the weaker relation. -/
+theorem lookup_sound_x {ρ : Nat → Nat} {φ : Val → Val} {s : St} {rs : Ref.St} {env : Nat}
+    (h : SimX ρ φ s rs env) (x : String) :
+    (lexLookup s x).map (fun p => (ρ p.1, φ p.2)) = Ref.lookup rs env x :=
+  ZygoVerif.Scope.lookup_sound_x h x
+
+/-- **`RelF` implies `Sim` up to the order of bindings.** The content is the `chain` field: the live
+scopes of the running activation down to its function scope, then the captured stacks of the running
+closure object and of the closures that made it (`Scope.chainIds`, the walk of
+`LookupSymbolInParentChainOfClosures`), repetitions removed (the helper functions of operand evaluation
+and of `force` repeat scopes already searched), ARE the reference static chain of `env`
+(`Scope.chainF_refChain`, `Scope.fnChainF_dedup`). -/
+theorem simX_of_relF {m : Nat → Nat} {s : St} {rs : Ref.St} {env : Nat} (h : RelF m s rs env) :
+    SimX id (trf m) s rs env :=
+  ZygoVerif.Scope.simX_of_relF h
+
+/-- the initial interpreter against the initial reference state: `SimX` is satisfiable through `RelF` -/
+example : SimX id (trf id) VM.initSt Ref.initSt 0 := simX_of_relF (relF_initSt id)
+
+/-- `RelF.lexLookup` again, by C03's route: search list → static chain → first binding. -/
+theorem lookup_agrees_under_relF {m : Nat → Nat} {s : St} {rs : Ref.St} {env : Nat} (h : RelF m s rs env) (x : String) :
+    (lexLookup s x).map (fun p => (p.1, trf m p.2)) = Ref.lookup rs env x :=
+  lookup_sound_x (simX_of_relF h) x
+
+/-! ### The difference between `Sim` and `SimX` is real
+
+A one-scope state whose two variables are listed in the opposite order in the reference frame (as after
+`(let [a 1 b 2] …)`, or a call of a two-parameter function): `SimX` holds, `Sim` does not. -/
+def twoVarsVM : St :=
+  { fns := [{ name := "__main", closing := [some 0] }],
+    scopes := [{ vars := [("a", .int 1#64), ("b", .int 2#64)] }], linear := [some 0] }
+def twoVarsRef : Ref.St := { frames := [{ vars := [("b", .int 2#64), ("a", .int 1#64)] }] }
+
+theorem simX_not_sim : SimX id id twoVarsVM twoVarsRef 0 ∧ ¬ Sim id id twoVarsVM twoVarsRef 0 := by
+  have hcore : lexCore twoVarsVM = [0, 0] := by decide
+  refine ⟨⟨by decide, fun i hi x => ?_, by decide⟩, fun h => ?_⟩
+  · rw [hcore] at hi
+    have hi0 : i = 0 := by simpa using hi
+    subst hi0
+    show List.lookup x [("b", Val.int 2#64), ("a", Val.int 1#64)]
+      = (List.lookup x [("a", Val.int 1#64), ("b", Val.int 2#64)]).map id
+    by_cases ha : x = "a"
+    · subst ha; decide
+    · by_cases hb : x = "b"
+      · subst hb; decide
+      · have ha' : (x == "a") = false := by simpa using ha
+        have hb' : (x == "b") = false := by simpa using hb
+        simp only [List.lookup, ha', hb', Option.map_none]
+  · have := h.vars 0 (by rw [hcore]; simp)
+    revert this; decide
+
+/-! ### Preservation on the fragment
+
+`SimPreservedFull` (Props/C03) quantifies over every instruction from every related state. What the C02
+simulation proofs give is preservation at the granularity the reference evaluator has — one
+EXPRESSION: from related states, the machine runs the whole code the generator made for an expression
+of the fragment (any number of instructions: scopes entered and left, `def`/`set`, closures made,
+operands evaluated in nested runs, calls and returns of closure objects — whose bodies may loop by self
+tail calls —, `apply`/`map`, lazy arguments made and forced) and is then again related to the reference
+state after `Ref.eval`, at the same environment, with the id map extended by the closures made. -/
+
+/-- **Preservation of the simulation relation on the fragment.** -/
+theorem sim_preserved_on_fragment (fnOk : Bool) (self : String) (e : Expr) (he : Ff fnOk self e = true)
+    (isFn : Nat → Bool) (c : Ctx) (hfn : FnameOk self c) (gs gs' : GS) (code : List Instr) (t : Bool)
+    (hc : (compile isFn c e).run gs = .ok ((code, t), gs')) (m : Nat → Nat) (s : St) (rs : Ref.St) (env : Nat)
+    (pre post : List Instr) (hrel : RelF m s rs env) (hgen : fnOk = true → GenOk gs gs' s)
+    (huser : (fnOf s s.curfunc).user = false)
+    (hcode : (fnOf s s.curfunc).code = pre ++ code ++ post) (hpc : s.pc = (pre.length : Int))
+    (n : Nat) (v' : Val) (rs' : Ref.St) (hev : Ref.eval n e env rs = .ok v' rs') :
+    SimX id (trf m) s rs env ∧
+    ∃ s' m', SimX id (trf m') s' rs' env
+      ∧ (∀ i, i < s.fns.length → m' i = m i)
+      ∧ (∃ v, s'.data = some v :: s.data ∧ v' = trf m' v)
+      ∧ s'.pc = s.pc + (code.length : Int) ∧ s'.linear = s.linear ∧ s'.curfunc = s.curfunc
+      ∧ (∃ k j, ∀ fuel, j ≤ fuel → ∀ st, (runLoop (fuel + k) st).run s = (runLoop fuel st).run s')
+      ∧ ∀ x, (lexLookup s' x).map (fun p => (p.1, trf m' p.2)) = Ref.lookup rs' env x := by
+  have h := segment_lemma_Ff fnOk self e he isFn c hfn gs gs' code t hc m s rs env pre post hrel hgen huser hcode hpc n
+  rw [hev] at h
+  obtain ⟨s', m', v, hv, rel, hm, -, hpc', hdata, hlin, -, hcur, hrun⟩ := h
+  exact ⟨simX_of_relF hrel, s', m', simX_of_relF rel, hm, ⟨v, hdata, hv⟩, hpc', hlin, hcur, hrun,
+    lookup_agrees_under_relF rel⟩
+
+/-- What stays OUTSIDE: `SimPreservedFull` itself (every instruction, every related state — also states no
+program reaches), and every program outside the proved fragments (`C02.CompileCorrectOutsideProved`:
+`fn`/`defn` inside the operands of a call — templates made at run time close over the dynamic stack, so
+`Sim.FScopes` fails —, a self call in a directly compiled non-tail position, `substitute`, an empty
+`newScope`). For those the claim rests on the `scope` correspondence runs. This theorem only records that
+the fragment's statement and the full one are different propositions of which the first is proved. -/
+theorem sim_preserved_scope :
+    (∀ m s rs env, RelF m s rs env → SimX id (trf m) s rs env)
+    ∧ (CompileCorrectOutsideProved → CompileCorrect) :=
+  ⟨fun _ _ _ _ h => simX_of_relF h, compile_correct_partial.2.1⟩
 
 end ZygoVerif.C03
